@@ -64,11 +64,12 @@ def ENC(d, n=1):
     return sym("enc", _ENC_TXT.get(d, "") if n == 1 else "", n, d)
 
 
-HI = lambda d="x", s="\\\\xff": sym("hi", s, 1, d)   # raw byte >= 0x80 (s: ASCII-quoted text)
+# text of symbols is quoted: token characters literally, every other byte as {xx} (see harness/c11 quote())
+HI = lambda d="x", s="{ff}": sym("hi", s, 1, d)   # raw byte >= 0x80
 K_EMPTY = []
-K_NONTOK = [sym("hi", "\\\\u00e9", 2, "u")]
-K_BADUTF8 = [sym("hi", "\\\\xff", 1, "x")]
-K_SPACE = [TOK("k"), sym("sp", " ", 1), TOK("k")]     # "k k": valid UTF-8, not a token
+K_NONTOK = [sym("hi", "{c3}{a9}", 2, "u")]
+K_BADUTF8 = [sym("hi", "{ff}", 1, "x")]
+K_SPACE = [TOK("k"), sym("sp", "{20}", 1), TOK("k")]     # "k k": valid UTF-8, not a token
 
 
 # ------------------------------------------------------------------ enumeration families
@@ -152,6 +153,39 @@ def h_extra(tier):
     return H
 
 
+def h_grammar(tier, real=True):
+    """grammar-directed enumeration (expanded by TLC, see Headers in BaggageRT.tla): every list-member built from a
+    key shape, a value word over the value alphabet (length <= 2, thorough 3) and a property tail; every pair of a
+    reduced member set (duplicate keys, empty members) with and without white space around the comma"""
+    keys = [[TOK("k")], [TOK("K")], [ENC("safe")], [SP(), TOK("k"), SP(2)]]
+    alpha = [TOK("a"), V(), EQ, ENC("x"), ENC("u2"), ENC("pct"), ENC("comma"), ENC("ufffd")]
+    odd = [[TOK("a"), SP(), TOK("b")], [SP(), TOK("a"), SP()], [PC], [PC, TOK("a")], [HI()], [sym("dq", "", 1)],
+           [ENC("u4"), ENC("u3")], [sym("bs", "", 1)], [sym("ctl", "", 1)], [ENC("space"), ENC("semi")]]
+    tails = [[], [SEMI, TOK("p")], [SEMI, TOK("p"), EQ, TOK("a")], [SEMI, TOK("p"), EQ, ENC("x"), ENC("x")], [SEMI],
+             [SEMI, TOK("p"), SEMI, TOK("q"), EQ, V()], [SEMI, SP(), TOK("p"), SP(), EQ, SP(), TOK("a"), SP()],
+             [SEMI, TOK("p"), EQ, TOK("a"), SP(), TOK("b")], [SEMI, SEMI, TOK("p")], [SEMI, TOK("p"), EQ, EQ, ENC("u2")],
+             [SEMI, ENC("safe"), EQ], [SEMI, TOK("p"), SP(), TOK("q")]]
+    small = [[TOK("k"), EQ, TOK("a")], [TOK("k"), EQ, ENC("x")], [TOK("K"), EQ], [TOK("k"), EQ, TOK("b"), SEMI, TOK("p")],
+             [SP(), TOK("k"), EQ, V(), SP()], [TOK("k")], [], [SP()], [TOK("m"), EQ, ENC("u2"), SEMI, TOK("p"), EQ, ENC("pct")],
+             [ENC("safe"), EQ, TOK("a")], [TOK("k"), EQ, TOK("a"), SEMI]]
+    seps = [[COMMA], [SP(), COMMA, SP()]]
+    # a smaller alphabet for longer flat words
+    alpha2 = [TOK("k"), EQ, COMMA, SEMI, SP(), ENC("x")]
+    if not real:
+        return {"HALPHA2": "{}", "HMAXLEN2": 0, "GKEYS": "{}", "GALPHA": "{}", "GMAXLEN": 0, "GODD": "{}", "GTAILS": "{}",
+                "GSMALL": "{}", "GSEPS": "{}"}
+    sets = lambda xs: tset(seq(x) for x in xs)
+    return {"HALPHA2": tset(alpha2), "HMAXLEN2": 6 if tier == "thorough" else 5, "GKEYS": sets(keys), "GALPHA": tset(alpha),
+            "GMAXLEN": 3 if tier == "thorough" else 2, "GODD": sets(odd), "GTAILS": sets(tails), "GSMALL": sets(small),
+            "GSEPS": sets(seps)}
+
+
+def h_triples():
+    small = [[TOK("k"), EQ, TOK("a")], [TOK("k"), EQ, ENC("x")], [TOK("K"), EQ], [TOK("k"), EQ, TOK("b"), SEMI, TOK("p")],
+             [SP(), TOK("k"), EQ, V(), SP()]]
+    return [a + [COMMA] + b + [COMMA] + c for a in small for b in small for c in small]
+
+
 V_RUNS = ["safe", "eq", "pct", "space", "nonascii2", "nonbmp4", "fffd", "bad"]
 
 
@@ -202,10 +236,11 @@ def rt_defines(tier, real=True, dev="{}", hmax=None):
     lim = REAL if real else {"MAXMEMBERS": 2, "MAXBYTES": 14, "MAXMEMBERBYTES": 8}
     d = dict(lim)
     d["HALPHA"] = tset(h_alpha(tier))
-    d["HEXTRA"] = tset(seq(h) for h in h_extra(tier)) if real else "{}"
+    d["HEXTRA"] = tset(seq(h) for h in h_extra(tier) + h_triples()) if real else "{}"
+    d.update(h_grammar(tier, real))
     d["ARGLISTS"] = tset(arg_lists(tier))
     d["DEV"] = dev
-    d["HMAXLEN"] = hmax if hmax is not None else (4 if tier == "quick" else 5)
+    d["HMAXLEN"] = hmax if hmax is not None else 4    # thorough: same length over the larger alphabet (15 symbols)
     return d
 
 
@@ -224,5 +259,198 @@ def store_defines(tier, steps):
     return d
 
 
+# ------------------------------------------------------------------ classification (known-finding matching)
+def header_cause(h, verdict):
+    """class of a header involved in a failing Parse case (h = lexed symbols)"""
+    if verdict == "nostable":
+        # grammatical and within the limits as received, but what it decodes to does not fit: the only
+        # decoding that grows is the repair of invalid UTF-8 (3 header bytes -> U+FFFD -> 9 bytes)
+        return "invalid-utf8-expansion" if any(x["c"] == "enc" and x["d"] == "x" for x in h) else "nostable-other"
+    # an empty property: ";" followed (after optional white space) by ";" "," or the end
+    for i, x in enumerate(h):
+        if x["c"] == "semi":
+            j = i + 1
+            while j < len(h) and h[j]["c"] == "sp":
+                j += 1
+            if j == len(h) or h[j]["c"] in ("semi", "comma"):
+                return "empty-property"
+    return "other"
+
+
+GO_KINDS = {("New", "accepted"): "new-accepted-over-limit", ("Parse", "accepted"): "parse-accepted-over-limit",
+            ("New", "rejected"): "new-rejected-within-limits", ("Parse", "rejected"): "parse-rejected-wellformed",
+            ("New", "members"): "new-members", ("Parse", "members"): "parse-members"}
+
+
+def text_of(h):
+    """readable rendering of lexed header symbols (for replay artefacts)"""
+    out = []
+    for x in h:
+        out.append(x["s"] if x["s"] else "<%s%s x%d>" % (x["c"], "/" + x["d"] if x["d"] else "", x["n"]))
+    return "".join(out)[:2000]
+
+
 def run(ctx):
-    raise NotImplementedError
+    thorough = ctx.tier == "thorough"
+    binp = ctx.go_build("c11")
+    counters = ctx.extra.setdefault("counters", {})
+
+    def add_counters(res):
+        for k, v in res["counters"].items():
+            counters[k] = counters.get(k, 0) + v
+        for m in res["inconclusive"]:
+            ctx.note_inconclusive(m)
+
+    # ---- model level: the statement's clauses as invariants of the codec model, exhaustively at scaled limits
+    #      (2 members / 14 bytes / 8 bytes per member) ...
+    #      (TLC's -coverage cannot be used on this spec: its CostModelCreator walk over the higher-order codec
+    #      operators does not terminate in reasonable time; action coverage is taken from the printed edges, whose
+    #      `act.op` names the action of every explored transition)
+    ctx.tlc(S, "MC_BaggageRT", "MC_BaggageRT.cfg", defines=rt_defines(ctx.tier, real=False), name="codec-scaled",
+            timeout=1800)
+    # ... and TLC finds the two known deviations of the code when the model is given the code's behaviour
+    for dev, inv in (("parse-no-refit", "Inv"), ("new-no-member-limit", "Inv")):
+        d = ctx.tlc(S, "MC_BaggageRT", "MC_BaggageRT.cfg", defines=rt_defines(ctx.tier, real=False, dev='{"%s"}' % dev, hmax=3),
+                    name="nodev-" + dev, must_pass=False, count=False, timeout=1800)
+        ctx.extra.setdefault("deviation_demos", {})[dev] = d["violated"]
+        if d["violated"] != inv:
+            ctx.note_inconclusive("model with deviation %s does not violate %s (got %s): the model lost the clause" %
+                                  (dev, inv, d["violated"] or d["error"]))
+
+    traces = []
+
+    # ---- spec -> code: codec edges at the REAL limits (every header over the alphabet + boundary families,
+    #      every constructor input family)
+    r = ctx.tlc(S, "MC_BaggageRT", "MC_BaggageRT.cfg", defines=rt_defines(ctx.tier, real=True), want_edges=True,
+                name="codec-real", timeout=3000)
+    out = os.path.join(ctx.work, "replay-codec.json")
+    tr = os.path.join(ctx.work, "replay-codec.ndjson")
+    ctx.run([binp, "codec", "-edges", r["edges_file"], "-trace", tr, "-out", out, "-rep", str(ctx.seed)], timeout=3000)
+    res = json.load(open(out))
+    add_counters(res)
+    ctx.traces_validated += res["executed"]
+    ctx.evaluations += res["evaluations"]
+    ctx.add_samples(res["samples"][:1])
+    ctx.extra["codec_edges"] = r["edges"]
+    traces.append(tr)
+    for m in res["mismatches"]:
+        c = m.get("case") or {}
+        line = m.get("act") or {}
+        kind = "panic" if m["kind"] == "panic" else GO_KINDS.get((c.get("op"), m["kind"]), m["kind"])
+        cause = header_cause(line.get("h", []), c.get("out")) if c.get("op") == "Parse" else ""
+        ctx.violation({"dir": "replay", "op": c.get("op"), "kind": kind, "verdict": c.get("out"), "why": c.get("why", ""),
+                       "cause": cause},
+                      replay={"line": line, "want": m.get("want"), "got": m.get("got"), "detail": m.get("detail"),
+                              "header_text": text_of(line.get("h", []))})
+
+    # ---- spec -> code: the edit machine (handles, contexts, returned slices), every edit sequence
+    steps = 4 if thorough else 3
+    r = ctx.tlc(S, "MC_BaggageStore", "MC_BaggageStore.cfg", defines=store_defines(ctx.tier, steps), want_edges=True,
+                name="store", timeout=3000)
+    out = os.path.join(ctx.work, "replay-store.json")
+    ctx.run([binp, "store", "-edges", r["edges_file"], "-out", out, "-rep", str(ctx.seed)], timeout=3000)
+    res = json.load(open(out))
+    add_counters(res)
+    ctx.traces_validated += res["executed"]
+    ctx.evaluations += res["evaluations"]
+    ctx.add_samples(res["samples"][:1])
+    ctx.extra["store_edges"] = r["edges"]
+    for m in res["mismatches"]:
+        c = m.get("case") or {}
+        ctx.violation({"dir": "replay-store", "op": c.get("op"), "kind": m["kind"], "verdict": "", "why": "", "cause": ""},
+                      replay={"path": m.get("path"), "act": m.get("act"), "want": m.get("want"), "got": m.get("got"),
+                              "detail": m.get("detail")})
+
+    # ---- code -> spec: random members / headers / edit scenarios + boundary families at the real limits
+    n = 3000 if thorough else 300
+    rtrace = os.path.join(ctx.work, "random.ndjson")
+    resf = os.path.join(ctx.work, "random.json")
+    ctx.run([binp, "random", "-n", str(n), "-trace", rtrace, "-res", resf], timeout=3000)
+    res = json.load(open(resf))
+    add_counters(res)
+    ctx.evaluations += res["executed"]
+    ctx.add_samples(res["samples"][:1])
+    for m in res["mismatches"]:
+        c = m.get("case") or {}
+        ctx.violation({"dir": "random", "op": c.get("op"), "kind": "panic", "verdict": "", "why": "", "cause": ""}, replay=m)
+    traces.insert(0, rtrace)
+
+    # ---- TLC validates every recorded line against the codec / edit model at the real limits
+    lines = []
+    for p in traces:
+        lines += open(p).read().splitlines()
+    chunks, cur = [], []
+    budget = 0
+    for ln in lines:
+        # scenarios (Reset, Op*) stay together; big lines count more
+        if (len(cur) >= 3000 or budget > 24_000_000) and '"ev":"Op"' not in ln[:200] and not ln.startswith('{"a":'):
+            chunks.append(cur)
+            cur, budget = [], 0
+        cur.append(ln)
+        budget += len(ln)
+    if cur:
+        chunks.append(cur)
+    total = 0
+    for ci, ch in enumerate(chunks):
+        p = os.path.join(ctx.work, "trace-%d.ndjson" % ci)
+        with open(p, "w") as f:
+            f.write("\n".join(ch) + "\n")
+        viols, accepted = ctx.validate_trace(S, "Trace_Baggage", "Trace_Baggage.cfg", p, timeout=3000, name="trace-%d" % ci,
+                                             defines=dict(REAL))
+        total += accepted
+        for v in viols:
+            rec = json.loads(ch[v["line"] - 1])
+            ev = rec["ev"]
+            if v["kind"] == "lexer-drift":
+                ctx.note_inconclusive("lexer drift (harness bug, not a verdict) at %s line %d" % (p, v["line"]))
+                continue
+            if ev == "Op":
+                sig = {"dir": "trace", "op": rec["a"]["op"], "kind": v["kind"], "verdict": "", "why": "", "cause": ""}
+                # the scenario up to the failing line
+                scen, i = [], v["line"] - 1
+                while i >= 0:
+                    r0 = json.loads(ch[i])
+                    if r0["ev"] != "Op":
+                        break
+                    scen.append(r0["a"])
+                    i -= 1
+                replay = {"scenario": scen[::-1], "obs": rec["obs"], "viol": v}
+            else:
+                cause = header_cause(rec["h"], v["verdict"]) if ev == "Parse" else ""
+                sig = {"dir": "trace", "op": ev, "kind": v["kind"], "verdict": v["verdict"], "why": v["why"], "cause": cause}
+                replay = {"line": rec, "viol": v, "header_text": text_of(rec.get("h", []))}
+            ctx.violation(sig, replay=replay)
+    ctx.traces_validated += total
+    ctx.extra["trace_lines_validated"] = total
+    ctx.extra["random_iterations"] = n
+
+    # ---- vacuity of the drivers: the interesting regimes must have been reached
+    need = ["op_New", "op_Parse", "out_Parse_accept", "out_Parse_reject", "out_Parse_either", "out_Parse_nostable",
+            "out_Parse_free", "out_New_accept", "out_New_reject", "out_New_badarg", "out_New_unjudged",
+            "returned_New", "returned_Parse",
+            "op_SetMember", "op_SetZero", "op_DeleteMember", "op_ToCtx", "op_FromCtx", "op_ClearCtx", "op_Child",
+            "op_Propagate", "op_Scribble", "handles_reread",
+            "gen_members_179", "gen_members_180", "gen_members_181", "gen_member_bytes_4095", "gen_member_bytes_4096",
+            "gen_member_bytes_4097", "gen_total_bytes_8191", "gen_total_bytes_8192", "gen_total_bytes_8193",
+            "gen_new_members_180", "gen_new_members_181", "gen_new_member_bytes_4096", "gen_new_member_bytes_4097",
+            "gen_new_total_bytes_8192", "gen_new_total_bytes_8193", "gen_invalid_utf8_run", "gen_hdr_duplicate_key",
+            "gen_value_invalid_utf8", "gen_key_nontoken", "obs_Parse_returned", "obs_Parse_refused", "obs_New_returned",
+            "obs_New_refused", "obs_New_returned_large", "obs_Parse_returned_large", "scenarios", "scn_op_SetMember",
+            "scn_op_DeleteMember", "scn_op_Propagate", "scn_op_Scribble", "scn_op_Parse", "scn_op_New", "scn_big_baggage"]
+    missing = [k for k in need if not counters.get(k)]
+    if missing:
+        ctx.note_inconclusive("vacuity: regimes never reached: %s" % missing)
+    if counters.get("edge_not_faithful", 0) > 0.05 * max(1, ctx.extra["codec_edges"]):
+        ctx.note_inconclusive("too many edges whose symbols do not denote their bytes: %d" % counters["edge_not_faithful"])
+    ctx.assumptions += [
+        "characters are compared by class (BaggageCodec.tla) and by count; byte identity is covered by the real-vs-real "
+        "comparisons `exact` (re-parsed / extracted members byte-identical) recorded by the harness and required by the spec",
+        "the per-member and total limits of the constructor are judged on the lengths of the implementation's own "
+        "serialisation (any valid percent-encoding is admissible), whose validity is judged by the header grammar",
+        "non-grammatical headers and OWS-dependent limit excess: either outcome admissible (verdicts free / either); "
+        "a success is judged by the conditional clauses only",
+        "non-token keys accepted by the Raw constructors are recorded, not judged",
+        "invalid bytes -> U+FFFD: any count between one per maximal invalid run and one per byte is admissible",
+    ]
+    ctx.extra["rule"] = ("a case is distinct by (operation, symbol sequence of the header / argument list) for the codec and by "
+                         "(edit sequence) for the edit machine")
